@@ -62,6 +62,10 @@ def qcow2_extensions_task(prop, cfg, tier, seed):
             mg = files.word_at("img", pos, 4, "be")
             ln = files.word_at("img", pos + 4, 4, "be")
             exts.append((pos, mg, ln))
+            if backing:
+                # header words the specification walk looks at beyond the end of the area lie inside the backing file
+                # name: there they are text (the name is decodable), not arbitrary words
+                E.assume(core.sym_or(pos + 8 <= end, core.sym_and((mg & 0x80808080) == 0, (ln & 0x80808080) == 0)))
             pos = pos + 8 + ((ln + 7) // 8) * 8
         # bound: the area ends (end marker, or no room for another header) after at most n_ext extensions
         lastpos, lastmg, lastln = exts[n_ext]
